@@ -441,6 +441,14 @@ def stats_extra(xpid, case, out, acc):
     tcploop.stats(case, out, acc)
 
 
+# ---------------------------------------------------------------- "… and can be dialed again" (engine: extra_cases)
+# The last clause of the property's second sentence is decided by the connection manager (`TransportManager::next`,
+# `ConnectionClosed` branch and what it leaves behind): the c05 area drives it; its ledger / wedged-peer verdicts are this
+# property's too (seeded change C07-g2: the closed branch drops the pending dial of the peer, which can then never be
+# dialed again).
+from . import cross as _cross  # noqa: E402
+_cross.install(globals(), "C05", "connection manager, c05 area", count={"quick": 500, "thorough": 8000, "search": 1000})
+
 # ---------------------------------------------------------------- real nodes through the public API (engine: extra_cases)
 # `Litep2p::new` (src/lib.rs) and `ConfigBuilder` (src/config.rs) hand every protocol its configuration; the `node` area
 # (checks/node.py) builds real nodes, compares the registration record with the wiring model (Model/Node/Wiring.lean)
